@@ -67,23 +67,44 @@ theorem gate_iff (fl : List Nat) (pfx d : Bytes) :
   proved once, for ALL programs (next group), so a re-ordering of independent tests or an extracted alias keeps this green
   while a dropped or weakened test turns it red. -/
 
-/-- in `sendto`, every path to `transport.sendto` has tested is_allowed, the null address and the transport -/
+/-- in `sendto`, every path to `transport.sendto` has tested is_allowed, the null address and the transport; every path to
+    a DNS lookup or to the queue has tested is_allowed -/
 theorem sendto_prog_safe : safeSock false false false Gen.sendto_prog = true := sendto_prog_safe'
 /-- in `datagram_received`, every path to `tunnel_data` has tested is_allowed -/
 theorem datagram_received_prog_safe : safeSock false false false Gen.datagram_received_prog = true :=
   datagram_received_prog_safe'
-/-- in `exit_data`, every path to `enable()` has tested that the source IP is the hop's IP -/
-theorem exit_data_prog_safe : safeExit false Gen.exit_data_prog = true := exit_data_prog_safe'
-/-- in `on_data`, every path to `exit_data` has tested that the destination is not ("0.0.0.0", 0) -/
-theorem on_data_prog_safe : safeOnData false Gen.on_data_prog = true := on_data_prog_safe'
+/-- in `exit_data`, every path to `enable()` has tested that the source IP is the hop's IP, and every path to
+    `sendto` has tested `enabled` or comes after `enable()` -/
+theorem exit_data_prog_safe : safeExit false false Gen.exit_data_prog = true := exit_data_prog_safe'
+/-- in `on_data`, every path to `exit_data` has tested that the destination is not ("0.0.0.0", 0) and that the cell is not
+    taken as a cell of an own circuit; every path to the re-dispatch `on_packet_from_circuit` has tested that the payload is not
+    itself a DATA cell (fix 6e0f2ad) -/
+theorem on_data_prog_safe : safeOnData false false false Gen.on_data_prog = true := on_data_prog_safe'
 
 /-- the checks are not vacuous: dropping the gate, the null test or the hop test is rejected -/
 example : safeSock false false false (.ite .hasTransport (.act .transportSend .done) (.act .queueAppend .done)) = false := by
   decide
 example : safeSock false false false
     (.ite .allowed (.ite .hasTransport (.act .transportSend .done) (.act .queueAppend .done)) .done) = false := by decide
-example : safeExit false (.ite .knownCircuit (.act .enable (.act .sendto .done)) .done) = false := by decide
-example : safeOnData false (.act .exitData .done) = false := by decide
+example : safeExit false false (.ite .knownCircuit (.act .enable (.act .sendto .done)) .done) = false := by decide
+example : safeOnData false false false (.act .exitData .done) = false := by decide
+/-- the gate moved below the domain block (DNS lookups for forbidden packets) is rejected -/
+example : safeSock false false false
+    (.ite .isDomain (.act .startResolve .done)
+      (.ite .allowed (.ite .destIsNull .done (.ite .hasTransport (.act .transportSend .done) (.act .queueAppend .done))) .done))
+    = false := by decide
+/-- `exit_data` without the `return` in the foreign-IP branch (foreign cells queued on a closed socket) is rejected -/
+example : safeExit false false
+    (.ite .knownCircuit (.ite .sockEnabled (.act .sendto .done)
+      (.ite .srcIpIsHopIp (.act .enable (.act .sendto .done)) (.act .sendto .done))) .done) = false := by decide
+/-- `on_data` as it was before fix 6e0f2ad (re-dispatch without the nested-DATA test) is rejected -/
+example : safeOnData false false false
+    (.ite .ownCircuit (.ite .ownPrefix (.act .deliverOwn .done) (.act .deliverRaw .done))
+      (.ite .destIsNull .done (.act .exitData .done))) = false := by decide
+/-- `on_data` whose own-circuit branch falls through into the exit part is rejected -/
+example : safeOnData false false false
+    (.ite .ownCircuit (.act .deliverRaw (.ite .destIsNull .done (.act .exitData .done)))
+      (.ite .destIsNull .done (.act .exitData .done))) = false := by decide
 /-- … and an equivalent re-ordering of sendto's independent tests is accepted -/
 example : safeSock false false false
     (.ite .destIsNull .done (.ite .isDomain (.ite .allowed (.act .startResolve .done) .done)
@@ -100,9 +121,9 @@ theorem safeSock_sound (e : Env) (p : Prog) (s : Sock) (h : safeSock false false
 
 /-- ANY exit_data program that passes `safeExit` enables a socket only when the cell's source IP is the socket's hop IP,
     keeps its identity and transports, and only outputs what `sendto` outputs -/
-theorem safeExit_sound (e : XEnv) (p : Prog) (x : Sock) (h : safeExit false p = true) :
+theorem safeExit_sound (e : XEnv) (p : Prog) (x : Sock) (h : safeExit false false p = true) :
     ∃ x', (interpExit e p (some x)).1 = some x' ∧ ExitSpec e x x' (interpExit e p (some x)).2 :=
-  interpExit_some e p x false (by simp) h
+  interpExit_some e p x false false (by simp) (by simp) h
 
 /-! ### 2c. the property over all histories -/
 
@@ -113,8 +134,8 @@ theorem step_policy (st : St) (ev : Ev) : ∀ o ∈ (step st ev).2, OutOK st.fla
   intro o hmem
   rcases step_weak st ev o hmem with ⟨c, k, rfl⟩ | ⟨s', hso⟩
   · trivial
-  · rcases hso with (⟨h, p, rfl⟩ | ⟨v, data, dest, rfl, hg, hn, _⟩) | ⟨payload, src, rfl, hg⟩
-    · trivial
+  · rcases hso with (⟨h, p, dta, rfl, hg⟩ | ⟨v, data, dest, rfl, hg, hn, _⟩) | ⟨payload, src, rfl, hg⟩
+    · exact (gate_iff _ _ _).mp hg
     · exact ⟨(gate_iff _ _ _).mp hg, hn⟩
     · exact (gate_iff _ _ _).mp hg
 
@@ -166,6 +187,54 @@ theorem no_null_dest (st : St) (evs : List Ev) (fl : List Nat) (c : Nat) (v : Bo
       intro ⟨h1, h2⟩
       simp [Dest.isNull, h1, h2] at this
     · exact ih (step st ev).1 h
+
+/-- `resolve_policy`: a DNS lookup for a tunnel-supplied host name is started only for a packet the flags allow (a lookup
+    is outside-world traffic caused by tunnelled data) -/
+theorem resolve_policy (st : St) (evs : List Ev) (fl : List Nat) (c : Nat) (host : Bytes) (port : Nat) (data : Bytes)
+    (h : (fl, Out.resolve c host port data) ∈ (run st evs).2) :
+    (Spec.isBT data = true ∧ fl.contains Gen.PEER_FLAG_EXIT_BT = true) ∨
+    (Spec.isIPv8 data = true ∧ (fl.contains Gen.PEER_FLAG_EXIT_IPV8 = true ∨ data.take 22 = st.pfx)) := by
+  induction evs generalizing st with
+  | nil => simp [run] at h
+  | cons ev evs ih =>
+    simp only [run, List.mem_append, List.mem_map] at h
+    rcases h with ⟨o, ho, heq⟩ | h
+    · cases heq
+      have := step_policy st ev _ ho
+      simpa [OutOK, Spec.allowed] using this
+    · have := ih (step st ev).1 h
+      rwa [step_pfx] at this
+
+/-- `enabled_flip_cause` — the step-level form of "opened only by data from the previous hop", for ANY state (no `Closed`
+    hypothesis): if a socket is enabled after a step, then it was enabled before the step, or the step IS a DATA cell that
+    names this socket's circuit, whose source IP is the socket's hop IP, whose destination is not ("0.0.0.0", 0), and
+    which was not consumed by the own-circuit branch of on_data -/
+theorem enabled_flip_cause (st : St) (ev : Ev) (s' : Sock) (hs' : s' ∈ (step st ev).1.socks) (hen : s'.enabled = true) :
+    (∃ s ∈ st.socks, s.cid = s'.cid ∧ s.hopIp = s'.hopIp ∧ s.enabled = true) ∨
+    (∃ sp d p, ev = .data s'.hopIp sp s'.cid d p ∧ d.isNull = false ∧
+      condOnData ⟨s'.hopIp, sp, s'.cid, d, p⟩ st .ownCircuit = false) := by
+  cases ev with
+  | setFlags f => exact Or.inl ⟨s', hs', rfl, rfl, hen⟩
+  | data ip sp c d p =>
+    rcases interpOnData_why ⟨ip, sp, c, d, p⟩ st Gen.on_data_prog st false false false rfl (by simp) (by simp)
+      on_data_prog_safe' s' hs' hen with h | ⟨h1, h2, h3, h4⟩
+    · exact Or.inl h
+    · simp only at h1 h2 h3 h4
+      subst h1 h2
+      exact Or.inr ⟨sp, d, p, rfl, h3, h4⟩
+  | open4 c => exact Or.inl (viaSock_why st c _ s' hs' hen)
+  | open6 c => exact Or.inl (viaSock_why st c _ s' hs' hen)
+  | resolved c idx infos => exact Or.inl (viaSock_why st c _ s' hs' hen)
+  | outside c v6 host port payload => exact Or.inl (viaSock_why st c _ s' hs' hen)
+
+/-- `unopened_socket_untouched`: an `exit_data` call after which the named socket is still closed (a first cell from a
+    foreign IP) has produced no output — nothing sent, no DNS lookup — and every still-closed socket of the table is an
+    unchanged socket of the old table (nothing was queued on it) -/
+theorem unopened_socket_untouched (st : St) (srcIp : Bytes) (cid : Nat) (dest : Dest) (payload : Bytes)
+    (h : ∀ s' ∈ (exitData st srcIp cid dest payload).1.socks, s'.cid = cid → s'.enabled = false) :
+    (exitData st srcIp cid dest payload).2 = [] ∧
+    ∀ s' ∈ (exitData st srcIp cid dest payload).1.socks, s'.enabled = false → s' ∈ st.socks :=
+  ⟨exitData_idle st srcIp cid dest payload h, fun s' hs' => (exitData_why st srcIp cid dest payload s' hs').2⟩
 
 /-- `queued_rechecked`: packets flushed from the queue when the transports open pass the gate AGAIN, under the flags
     configured at flush time (not those under which they were queued) -/
@@ -232,7 +301,15 @@ example : ((run exSt [.data [57, 46, 57, 46, 57, 46, 57] 999 7 exDest exDht]).1.
 
 /-- a domain destination resolving to 0.0.0.0 with port 0 is dropped after resolution -/
 example : (run exSt [.data exSock.hopIp 999 7 ⟨.dom, [48], 0⟩ exDht, .open4 7, .open6 7,
-    .resolved 7 0 [(false, zeroHost)]]).2 = [([Gen.PEER_FLAG_RELAY, Gen.PEER_FLAG_EXIT_BT], .resolve 7 [48] 0)] := by decide
+    .resolved 7 0 [(false, zeroHost)]]).2 = [([Gen.PEER_FLAG_RELAY, Gen.PEER_FLAG_EXIT_BT], .resolve 7 [48] 0 exDht)] := by decide
+
+/-- a DATA cell on an own circuit whose payload is itself a DATA cell of this overlay is dropped (fix 6e0f2ad); the same
+    cell with another message id is a local delivery; neither touches the exit socket -/
+example : (step { exSt with pfx := 0 :: 2 :: List.replicate 20 7, circs := [⟨555, [57], 4000, false⟩] }
+    (.data [57] 4000 555 ⟨.v4, zeroHost, 0⟩ ((0 :: 2 :: List.replicate 20 7) ++ [1, 0, 0, 0, 7, 1, 2]))).2 = [] := by decide
+example : (step { exSt with pfx := 0 :: 2 :: List.replicate 20 7, circs := [⟨555, [57], 4000, false⟩] }
+    (.data [57] 4000 555 ⟨.v4, zeroHost, 0⟩ ((0 :: 2 :: List.replicate 20 7) ++ [9, 0, 0, 0, 7, 1, 2]))).2 = [.loc 555 0] := by
+  decide
 
 /-- an allowed outside datagram is tunnelled back, a forbidden one is not -/
 example : (step { exSt with socks := [{ exSock with enabled := true, t4 := true, t6 := true }] }
